@@ -870,7 +870,7 @@ _GLOBAL_FUNCS = ('len', 'isinstance', 'set', 'list', 'dict', 'tuple', 'sorted', 
                  'next', 'any', 'all', 'sum', 'abs', 'bool', 'float', 'callable', 'id', 'type',
                  # spec helpers
                  'old', 'implies', 'forall', 'exists', 'seq', 'set_of', 'fresh', 'typeof_is',
-                 'sorted_by', 'distinct_by', 'iff', 'ite', 'count_where', 'no_alias', 'allocated', 'preexisting',
+                 'sorted_by', 'distinct_by', 'iff', 'ite', 'count_where', 'no_alias', 'allocated', 'preexisting', 'dict_wf',
                  'unchanged', 'index_of', 'str_index', 'subseq', 'substr', 'str_len', 'setv',
                  'union_of', 'same_elems', 'is_fresh', 'seq_map_eq', 'let', 'emp', 'char_at',
                  'is_digit_str', 'str_to_int', 'concat_seq', 'mkseq', 'is_list', 'store', 'dict_has', 'dict_get',
